@@ -16,6 +16,7 @@ package helper
 func Head[T Number](c <-chan T, count int) <-chan T {
 	result := make(chan T, cap(c))
 
+	VerifStage("Head", count, []any{c}, []any{result})
 	go func() {
 		defer close(result)
 
